@@ -276,6 +276,17 @@ def handle (d : DState) (line : String) : Except String (DState × String) := do
         pure (d, s!"probs={fList fRat probs} sum={fRat (lsum probs)}")
     | "ls" => do
         pure (d, fStore (getDir d (← arg a "dir")))
+    | "cpdir" => do
+        -- copying a checkpoint directory copies its committed steps and its config.yaml (whose recorded checkpoint_dir still names the source)
+        let src ← arg a "src"; let dst ← arg a "dst"
+        let d1 := setDir d dst (getDir d src)
+        let d2 := match d1.dirCfg.lookup src with
+          | some cfg => { d1 with dirCfg := (dst, cfg) :: d1.dirCfg.filter (·.1 ≠ dst) }
+          | none => d1
+        pure (d2, "ok")
+    | "rmdir" => do
+        let k ← arg a "dir"
+        pure ({ d with dirs := d.dirs.filter (·.1 ≠ k), dirCfg := d.dirCfg.filter (·.1 ≠ k) }, "ok")
     | "restore" => do
         -- Solver.restore(dir, step, new_checkpoint_dir, checkpoint_frequency, max_checkpoints)
         let sid ← arg a "sid"; let dirId ← arg a "dir"
@@ -289,7 +300,9 @@ def handle (d : DState) (line : String) : Except String (DState × String) := do
         | some cfg =>
           let f ← match a.lookup "f" with | none => pure cfg.f | some v => pNat v
           let mk ← match a.lookup "m" with | none => pure cfg.maxKeep | some v => pNat v
-          let newDir := (a.lookup "newdir").getD dirId
+          -- without `new_checkpoint_dir` the rebuilt solver keeps saving where its configuration file says (the directory the run
+          -- started in), which differs from `dirId` when the directory was copied or moved
+          let newDir := (a.lookup "newdir").getD (cfg.dir.getD dirId)
           let sv0 : Solver := { cfg with f, maxKeep := mk, dir := if f = 0 then none else some newDir, perms := [] }
           let d := if f = 0 then d else
             let d1 := setDir d newDir ((getDir d newDir).setup f true)
